@@ -1169,3 +1169,227 @@ def canaries_c20(programs):
         Q.note = "CANARY (oracle compares one byte too few; size_ok must fail) of " + P.pid
         out.append(Q)
     return out
+
+
+# ---------------------------------------------------------------------------------
+# C14: every documented spelling of one request satisfies the one contract of its meaning
+def flag_forms(carrier, name="ignore"):
+    return ["%s(%s)" % (carrier, name), "%s(%s = true)" % (carrier, name), "%s(%s(true))" % (carrier, name)]
+
+
+def val_forms(name, v):
+    return ["%s = %s" % (name, v), "%s(%s)" % (name, v), '%s = "%s"' % (name, v), '%s("%s")' % (name, v)]
+
+
+def c14(tier, seed):
+    c = Counter()
+    out = []
+
+    def add(P):
+        P.tags["prop"] = "C14"
+        out.append(P)
+        return P
+
+    # ---- PartialEq: ignore x method spellings, carrier PartialEq / Eq, joined vs split attributes, trait order
+    ign = flag_forms("PartialEq") + ["PartialEq = false"]
+    for i, isp in enumerate(ign):
+        for j, msp in enumerate(val_forms("method", "crate::m::eq_a")):
+            for carrier in ("PartialEq", "Eq"):
+                fs = [Field("a", "T0", eq={}),
+                      Field("b", "T1", attrs=[isp.replace("PartialEq", carrier)], eq={"ignore": True}),
+                      Field("c", "u8", attrs=["%s(%s)" % (carrier, msp)], eq={"method": "crate::m::eq_a"})]
+                traits = ["PartialEq", "Eq"] if (i + j) % 2 else ["Eq", "PartialEq"]
+                P = add(Program(c.pid(), "struct", "S", [Variant(None, "named", fs)], traits, generics=["T0", "T1"], inst={"T0": "u8", "T1": "f32"},
+                                focus={"PartialEq"}, note="C14 PartialEq ignore=`%s` method=`%s` carrier=%s" % (isp, msp, carrier)))
+                if (i + j) % 3 == 0:
+                    P.type_attrs = [[t] for t in traits]
+    # ---- Ord / PartialOrd: ignore x method x rank spellings (negative, string, parenthesised)
+    for md, carrier0, meth in (("both", "Ord", "crate::m::cmp_a"), ("both", "PartialOrd", "crate::m::cmp_b"), ("po", "PartialOrd", "crate::m::pcmp_a")):
+        ign = flag_forms(carrier0) + ["%s = false" % carrier0]
+        for i, isp in enumerate(ign):
+            for j, msp in enumerate(val_forms("method", meth)):
+                rsp_neg = val_forms("rank", "-2")[(i + j) % 4]
+                rsp_pos = val_forms("rank", "7")[(i + 2 * j) % 4]
+                order = (i + j) % 2
+                ps_c = [msp, rsp_pos] if order else [rsp_pos, msp]
+                fs = [Field("a", "T0", attrs=["%s(%s)" % (carrier0, rsp_neg)], ord={"rank": -2}),
+                      Field("b", "T1", attrs=[isp], ord={"ignore": True}),
+                      Field("c", "u8", attrs=["%s(%s)" % (carrier0, ", ".join(ps_c))], ord={"method": meth, "rank": 7}),
+                      Field("d", "T1", ord={})]
+                P = ord_program(c.pid(), "struct", "S", [Variant(None, "named", fs)], md, ["T0", "T1"], i + j,
+                                "C14 %s ignore=`%s` method=`%s` ranks=`%s`,`%s`" % (carrier0, isp, msp, rsp_neg, rsp_pos), prop="C14")
+                out.append(P)
+    # rank spellings alone, all four forms on each of two fields, tuple struct
+    for i, r1 in enumerate(val_forms("rank", "3")):
+        for j, r2 in enumerate(val_forms("rank", "-4")):
+            fs = [Field(None, "T0", attrs=["Ord(%s)" % r1], ord={"rank": 3}), Field(None, "T0", ord={}), Field(None, "T1", attrs=["Ord(%s)" % r2], ord={"rank": -4})]
+            out.append(ord_program(c.pid(), "struct", "S", [Variant(None, "tuple", fs)], "both", ["T0", "T1"], i + j, "C14 rank forms `%s` `%s`" % (r1, r2), prop="C14"))
+    # ---- Hash
+    ign = flag_forms("Hash") + ["Hash = false"]
+    for i, isp in enumerate(ign):
+        for j, msp in enumerate(val_forms("method", "crate::m::hash_a")):
+            fs = [Field("a", "u16", hash={}), Field("b", "u8", attrs=[isp], hash={"ignore": True}),
+                  Field("c", "u8", attrs=["Hash(%s)" % msp], hash={"method": "crate::m::hash_a"})]
+            add(Program(c.pid(), "struct", "S", [Variant(None, "named", fs)], ["Hash"], focus={"Hash"}, note="C14 Hash ignore=`%s` method=`%s`" % (isp, msp)))
+    # ---- Clone method forms
+    for j, msp in enumerate(val_forms("method", "crate::m::clone_a")):
+        for shape in ("named", "tuple"):
+            fs = [Field("a" if shape == "named" else None, "T0", clone={}), Field("b" if shape == "named" else None, "u8", attrs=["Clone(%s)" % msp], clone={"method": "crate::m::clone_a"})]
+            add(clone_program(c.pid(), "struct", "S", [Variant(None, shape, fs)], ["T0"], False, "C14 Clone method=`%s`" % msp, 1))
+    # ---- Default: value spellings x new spellings
+    for j, (sp, newsp) in enumerate(itertools.product(["Default = 7", "Default(expression = 7)", "Default(expr = 7)", "Default(expression(7))", "Default(expr(7))"],
+                                                      ["Default", "Default(new)", "Default(new = true)", "Default(new(true))"])):
+        fs = [Field("a", "u8", attrs=[sp], default={"src": "7", "expected": "7u8", "verus": True}), Field("b", "bool", default={"src": None, "expected": "false", "verus": True})]
+        P = add(Program(c.pid(), "struct", "S", [Variant(None, "named", fs)], [newsp], focus={"Default"}, note="C14 Default `%s` / `%s`" % (sp, newsp),
+                        default={"new": newsp != "Default"}))
+        P.tags["mk"] = "// no inputs"
+    for j, tl in enumerate(["Default(expression = S { a: 3, b: true })", "Default(expr = S { a: 3, b: true })", "Default(expression(S { a: 3, b: true }))", "Default(expr(S { a: 3, b: true }))"]):
+        fs = [Field("a", "u8", default={"expected": "x"}), Field("b", "bool", default={"expected": "x"})]
+        P = add(Program(c.pid(), "struct", "S", [Variant(None, "named", fs)], [tl], focus={"Default"}, note="C14 type-level `%s`" % tl,
+                        default={"new": False, "type_expected": "S { a: 3u8, b: true }"}))
+        P.tags["mk"] = "// no inputs"
+    # ---- Into method forms, one list vs several attributes
+    for j, msp in enumerate(val_forms("method", "crate::m::into_a")):
+        for split in (False, True):
+            fs = [Field("a", "u8", attrs=["Into(u16, %s)" % msp, "Into(u32)"], into={"marks": {"u16": "crate::m::into_a", "u32": None}}), Field("b", "u8", into={})]
+            if split:
+                fs[0].sem["_split_attrs"] = True
+            P = add(into_program(c.pid(), "struct", [Variant(None, "named", fs)], ["u16", "u32"], "C14 Into method=`%s` split=%s" % (msp, split), 1 if split else 0))
+    # ---- Debug: type name forms, bool forms, key forms, ignore forms, named_field forms
+    for j, tsp in enumerate(["Debug = Nn", 'Debug = "Nn"', "Debug(name = Nn)", "Debug(name(Nn))", 'Debug(name = "Nn")', 'Debug(name("Nn"))',
+                             "Debug(rename = Nn)", "Debug(rename(Nn))", 'Debug(rename = "Nn")']):
+        for k, ksp in enumerate(["Debug = kk", 'Debug = "kk"', "Debug(name = kk)", "Debug(name(kk))", 'Debug(name = "kk")', "Debug(rename = kk)", 'Debug(rename("kk"))']):
+            if tier == "quick" and (j + k) % 2:
+                continue
+            isp = (flag_forms("Debug") + ["Debug = false"])[(j + k) % 4]
+            fs = [Field("a", "T0", attrs=[ksp], debug={"key": "kk"}), Field("b", "T1", attrs=[isp], debug={"ignore": True}), Field("c", "T0", debug={})]
+            add(Program(c.pid(), "struct", "S", [Variant(None, "named", fs)], [tsp], generics=["T0", "T1"], inst={"T0": "u8", "T1": "u8"}, focus={"Debug"},
+                        note="C14 Debug type=`%s` key=`%s` ignore=`%s`" % (tsp, ksp, isp), debug={"name": "Nn", "named_field": None}))
+    for j, (nsp, nv) in enumerate([("name = false", False), ("name(false)", False), ("rename = false", False), ("name = true", True), ("name(true)", True)]):
+        for k, (fsp, fv) in enumerate([("named_field = true", True), ("named_field(true)", True), ("named_field = false", False), ("named_field(false)", False)]):
+            if nv is False and fv is True:
+                continue     # nameless struct style: debug_map form (outside Verus)
+            order = (j + k) % 2
+            meta = "Debug(%s)" % ", ".join([nsp, fsp] if order else [fsp, nsp])
+            fs = [Field(None, "T0", debug={}), Field(None, "T0", debug={})]
+            add(Program(c.pid(), "struct", "S", [Variant(None, "tuple", fs)], [meta], generics=["T0"], inst={"T0": "u8"}, focus={"Debug"},
+                        note="C14 Debug `%s`" % meta, debug={"name": "default" if nv else False, "named_field": fv}))
+    # variant level name forms in an enum
+    for j, vsp in enumerate(["Debug = Vv", 'Debug = "Vv"', "Debug(name = Vv)", "Debug(name(Vv))", "Debug(rename = Vv)", 'Debug(rename("Vv"))']):
+        for tsp, tn in (("Debug", "default"), ("Debug(name = true)", True), ("Debug(name(true))", True)):
+            vs = [Variant("V0", "unit", [], attrs=[vsp], debug={"name": "Vv"}), Variant("V1", "tuple", [Field(None, "T0", debug={})], attrs=[vsp.replace("Vv", "Ww")], debug={"name": "Ww"}),
+                  Variant("V2", "named", [Field("a", "T0", debug={})], debug={"name": True})]
+            add(Program(c.pid(), "enum", "E", vs, [tsp], generics=["T0"], inst={"T0": "u8"}, focus={"Debug"},
+                        note="C14 Debug variant=`%s` type=`%s`" % (vsp, tsp), debug={"name": tn, "named_field": None}))
+    return out
+
+
+# ---------------------------------------------------------------------------------
+# C15: every trait's contract (built from its own attributes only) under adversarial
+# attributes of all the other traits on the same fields
+def c15(tier, seed):
+    rnd = random.Random(1000 + seed)
+    c = Counter()
+    out = []
+    ALL = ["Debug", "PartialEq", "Eq", "PartialOrd", "Ord", "Hash", "Clone", "Default", "Into(u16)"]
+    nprog = 24 if tier == "quick" else 120
+    for pi in range(nprog):
+        kind = "struct" if pi % 3 else "enum"
+        # which other traits are present: all / random subsets / reordered
+        if pi % 4 == 0:
+            traits = list(ALL)
+        else:
+            traits = [t for t in ALL if rnd.random() < 0.7]
+            for need, dep in (("Eq", "PartialEq"), ("Ord", "PartialOrd"), ("Ord", "Eq"), ("PartialOrd", "PartialEq")):
+                if need in traits and dep not in traits:
+                    traits.append(dep)
+            if "Eq" in traits and "PartialEq" not in traits:
+                traits.append("PartialEq")
+            if not traits:
+                traits = ["PartialEq"]
+            rnd.shuffle(traits)
+        has = lambda t: any(x.split("(")[0] == t for x in traits)
+        md = "both" if has("Ord") else "po"
+        nv = 1 if kind == "struct" else rnd.choice((2, 3))
+        variants = []
+        for vi in range(nv):
+            shape = rnd.choice(("named", "tuple"))
+            n = rnd.choice((2, 3)) if kind == "struct" else rnd.choice((1, 2, 3))
+            fs = []
+            used_ranks = set()
+            into_done = False
+            for i in range(n):
+                # field type: u8 (methods allowed) / u16 / bool ; the first field can always feed Into(u16)
+                ty = rnd.choice(["u8", "u8", "u16", "bool"]) if i else rnd.choice(["u8", "u16"])
+                sem, attrs = {}, []
+                def pick():
+                    return rnd.choice("nnim") if ty == "u8" else rnd.choice("nni")
+                if has("PartialEq"):
+                    a = pick()
+                    sem["eq"] = {"ignore": a == "i", "method": EQ_METHODS[i % 2] if a == "m" else None}
+                    sp = spell_field("Eq" if (has("Eq") and rnd.random() < 0.3) else "PartialEq", sem["eq"], rnd.randrange(8))
+                    if sp: attrs.append(sp)
+                if has("PartialOrd"):
+                    a = pick()
+                    r = None
+                    if rnd.random() < 0.4:
+                        r = rnd.choice([x for x in (-5, -1, 0, 2, 9, 40) if x not in used_ranks])
+                        used_ranks.add(r)
+                    meths = ["crate::m::pcmp_a", "crate::m::pcmp_b"] if md == "po" else ["crate::m::cmp_a", "crate::m::cmp_b"]
+                    sem["ord"] = {"ignore": a == "i", "method": meths[i % 2] if a == "m" else None, "rank": r}
+                    sp = spell_field("Ord" if (md == "both" and rnd.random() < 0.5) else "PartialOrd", sem["ord"], rnd.randrange(8))
+                    if sp: attrs.append(sp)
+                if has("Hash"):
+                    a = pick()
+                    sem["hash"] = {"ignore": a == "i", "method": HASH_METHODS[i % 2] if a == "m" else None}
+                    sp = spell_field("Hash", sem["hash"], rnd.randrange(8))
+                    if sp: attrs.append(sp)
+                if has("Clone"):
+                    a = "m" if (ty == "u8" and rnd.random() < 0.3) else "n"
+                    sem["clone"] = {"method": CLONE_METHODS[i % 2] if a == "m" else None}
+                    if a == "m": attrs.append("Clone(%s)" % spell_param("method", sem["clone"]["method"], rnd.randrange(4)))
+                if has("Debug"):
+                    a = rnd.choice("nnik") if shape == "named" else rnd.choice("nni")
+                    f0 = dbg_field("x", ty, a, rnd.randrange(12), shape == "named")
+                    sem["debug"] = f0.sem["debug"]; attrs += f0.attrs
+                if has("Default") and (kind == "struct" or vi == 0):
+                    if rnd.random() < 0.5:
+                        lit = {"u8": ("7", "7u8"), "u16": ("300", "300u16"), "bool": ("true", "true")}[ty]
+                        sem["default"] = {"src": lit[0], "expected": lit[1], "verus": True}
+                        attrs.append(["Default = %s", "Default(expression = %s)", "Default(expr(%s))"][rnd.randrange(3)] % lit[0])
+                    else:
+                        sem["default"] = {"src": None, "expected": {"u8": "0u8", "u16": "0u16", "bool": "false"}[ty], "verus": True}
+                elif has("Default"):
+                    sem["default"] = {"src": None, "expected": {"u8": "0u8", "u16": "0u16", "bool": "false"}[ty], "verus": True}
+                sem["into"] = {"marks": {}}
+                fs.append(Field(NAMES[i] if shape == "named" else None, ty, attrs=attrs, **sem))
+            if has("Into"):
+                # designate one u8/u16 field per variant for Into(u16)
+                cands = [f for f in fs if f.ty in ("u8", "u16")]
+                if not cands:
+                    fs[0].ty = "u8"; cands = [fs[0]]
+                    for g in ("eq", "ord", "hash", "clone"):
+                        pass
+                d = rnd.choice(cands)
+                m = "crate::m::into_a" if (d.ty == "u8" and rnd.random() < 0.4) else None
+                if len(fs) > 1 or m or rnd.random() < 0.5:
+                    d.attrs.append("Into(u16, %s)" % spell_param("method", m, rnd.randrange(4)) if m else "Into(u16)")
+                    d.sem["into"] = {"marks": {"u16": m}}
+            for f in fs:
+                if len(f.attrs) > 1 and rnd.random() < 0.3:
+                    f.sem["_split_attrs"] = True
+            vattrs, vsem = [], {}
+            if kind == "enum":
+                if has("Default") and vi == 0:
+                    vattrs.append("Default"); vsem["default"] = {"marked": True}
+                vsem["debug"] = {"name": True, "named_field": None}
+            variants.append(Variant(None if kind == "struct" else "V%d" % vi, shape, fs, attrs=vattrs, **vsem))
+        focus = {t.split("(")[0] for t in traits} - {"Eq"}
+        P = Program(c.pid(), kind, "S" if kind == "struct" else "E", variants, traits, focus=focus,
+                    note="C15 %s traits=%s" % (kind, traits), ord={"mode": md}, clone={"copy": False}, default={"new": False},
+                    into={"targets": ["u16"]} if has("Into") else {}, debug={"name": "default", "named_field": None})
+        P.tags["prop"] = "C15"
+        if pi % 5 == 1 and len(traits) > 1:
+            P.type_attrs = [[t] for t in traits]
+        out.append(P)
+    return out
